@@ -43,6 +43,14 @@ example : opSave exProject (some exDir) = save exProject (some exDir) := by deci
 example : opSave exProject (some exDir2) = save exProject (some exDir2)
     ∧ opSave exProject (some exDir2) = .error .invalid := by decide +kernel
 
+/-- `WF` matters: when two different recordings carry one uuid, the operational writer skips the
+    second one altogether (its tag is never registered), the declarative one still traverses it -/
+example : let c : Collection := .recordingSet
+            { uuid := "rs", created_on := "2020", recordings := [exRec, { exRec with tags := [exTag2] }] }
+          wfB c = false ∧ opSave c none ≠ save c none
+          ∧ (opSave c none).map (fun d => (lst d.tags).length) = .ok 1
+          ∧ (save c none).map (fun d => (lst d.tags).length) = .ok 2 := by decide +kernel
+
 /-- after a successful operational save the adapter tables are the ones the declarative writer
     predicts for the whole traversal (`mkSt`): every table is the first-wins de-duplication of the
     traversal restricted to its kind, encoded -/
